@@ -92,3 +92,50 @@ def term_str(t, depth=0):
     if k == "atom":
         return "atom(%s)" % core.atom_text(t[1])
     return str(t)
+
+
+def resolve_fn(mir, callname):
+    """call sites print `mod::<impl T>::f`, definitions `mod::<impl at file:line>::f`"""
+    seg = callname.split("::")[-1]
+    mod = callname.split("::")[0]
+    c = [n for n in mir.index if n.endswith("::" + seg)]
+    c2 = [n for n in c if n.split("::")[0] == mod] or c
+    if len(c2) != 1:
+        raise core.Unsupported("cannot resolve %s: %s" % (callname, c2[:4]))
+    return c2[0]
+
+
+def back_edge_targets(body, entry="bb0"):
+    """targets of DFS back edges (loop heads), most frequently targeted first"""
+    succ = {}
+    for bb, ls in body.blocks.items():
+        t = ls[-1]
+        if "(cleanup)" in t:
+            continue
+        succ[bb] = [x for x in re.findall(r"bb\d+", re.sub(r"unwind: bb\d+", "", t))]
+    color, cnt = {}, {}
+    stack = [(entry, iter(succ.get(entry, [])))]
+    color[entry] = 1
+    while stack:
+        node, it = stack[-1]
+        nxt = next(it, None)
+        if nxt is None:
+            color[node] = 2
+            stack.pop()
+            continue
+        c = color.get(nxt, 0)
+        if c == 0:
+            color[nxt] = 1
+            stack.append((nxt, iter(succ.get(nxt, []))))
+        elif c == 1:
+            cnt[nxt] = cnt.get(nxt, 0) + 1
+    return sorted(cnt, key=lambda b: -cnt[b])
+
+
+def field_path(t):
+    """("proj"...) chain -> (root term, [projection texts outermost last])"""
+    projs = []
+    while t is not None and t[0] == "proj":
+        projs.append(t[2])
+        t = t[1]
+    return t, list(reversed(projs))
